@@ -19,7 +19,7 @@ theorem frameOk_cont (s : St) (fi : FrameIn) (e : FrameOr) (x : Mid) (hx : frSil
   dsimp only at hok
   rw [hx] at hok
   simp only [Bool.and_eq_true] at hok
-  exact ⟨hok.1.2.1, hok.2.1.1, hok.2.2⟩
+  exact ⟨hok.2.1, hok.2.2.1, hok.2.2.2⟩
 
 theorem frSilk_mode (s : St) (fi : FrameIn) (e : FrameOr) (x : Mid) (hx : frSilk fi (frPre s fi) e = .cont x) :
     x.st.mode = (frPre s fi).st.mode := by
@@ -61,43 +61,166 @@ theorem silk_red_payload (s : St) (fi : FrameIn) (e : FrameOr) (x : Mid)
   dsimp only at hred hst hrb2 hc hf hdtx hret ⊢
   subst hred hst
   -- the coding block in SILK-only mode
-  have hfc : ∃ cs nb, frCode x.st fi true x.celtToSilk rb e = (.ok { ret := (e.tellC + 7) / 8, nbCompr := nb }, cs) ∨
+  have hfc : (∃ c cs, frCode x.st fi true x.celtToSilk rb e = (.ok c, cs) ∧ c.ret = (e.tellC + 7) / 8) ∨
       (∃ cs, frCode x.st fi true x.celtToSilk rb e = (.ierr, cs)) := by
     unfold frCode runMain nbCompr0
     simp only [hmode, MODE_SILK_ONLY, MODE_HYBRID, ne_eq, not_true_eq_false, false_and, if_false, if_true,
       decide_false, Bool.false_eq_true, true_and, show ¬ ((1000 : Int) = 1001) by decide]
     split
-    · exact ⟨_, 0, Or.inr ⟨_, rfl⟩⟩
+    · exact Or.inr ⟨_, rfl⟩
     · split
       · split
-        · exact ⟨_, 0, Or.inr ⟨_, rfl⟩⟩
-        · exact ⟨_, _, Or.inl rfl⟩
-      · exact ⟨_, _, Or.inl rfl⟩
-  obtain ⟨cs, nb, hfc | ⟨cs', hfc⟩⟩ := hfc
+        · exact Or.inr ⟨_, rfl⟩
+        · exact Or.inl ⟨_, _, rfl, rfl⟩
+      · exact Or.inl ⟨_, _, rfl, rfl⟩
+  rcases hfc with ⟨c, cs, hfc, hcr⟩ | ⟨cs', hfc⟩
   · rw [hfc] at hdtx hret ⊢
     dsimp only at hdtx hret ⊢
-    unfold frFinish finishRet at hdtx hret ⊢
+    have hfr : finishRet x.st fi true rb c.ret e = c.ret + 1 + rb := by
+      unfold finishRet
+      rw [if_neg (by omega), if_neg (by simp)]
+    unfold frFinish at hdtx hret ⊢
     dsimp only at hdtx hret ⊢
-    split at hdtx
-    · cases hdtx
-    · rename_i hnd
-      rw [if_neg hnd] at hret ⊢
+    rw [hfr] at hdtx hret ⊢
+    by_cases hd : (dtxDecision x.st fi e).1 ≠ 0
+    · rw [if_pos hd] at hdtx; cases hdtx
+    · rw [if_neg hd] at hret ⊢
       rw [if_neg (by omega)] at hret ⊢
-      split at hret
-      · split at hret
+      by_cases hcbr : x.st.useVbr = 0
+      · rw [if_pos hcbr] at hret ⊢
+        split at hret
         · simp only [errRes, OPUS_INTERNAL_ERROR] at hret; omega
-        · rename_i hcbr hpad
-          rw [if_pos hcbr, if_neg hpad]
+        · rename_i hpad
+          rw [if_neg hpad]
           dsimp only
-          rw [if_neg (by omega), if_neg (by simp), htc]
-          omega
-      · rename_i hcbr
-        rw [if_neg hcbr]
+          rw [hcr, htc]; omega
+      · rw [if_neg hcbr]
         dsimp only
-        rw [if_neg (by omega), if_neg (by simp), htc]
-        omega
+        rw [hcr, htc]; omega
   · rw [hfc] at hret
     simp only [errRes, OPUS_INTERNAL_ERROR] at hret
     omega
+
+/-- SILK-only, redundancy signalled: the flag bit did not move `ec_tell` backwards (contract `tellsOk`). -/
+theorem silk_red_mono (s : St) (fi : FrameIn) (e : FrameOr) (x : Mid)
+    (hx : frSilk fi (frPre s fi) e = .cont x) (hmode : x.st.mode = MODE_SILK_ONLY)
+    (hred : (frRedSig fi x e).1 = true) (hok : frameOk s fi e = true) : e.tellA ≤ e.tellB := by
+  obtain ⟨ht, -, -⟩ := frameOk_cont s fi e x hx hok
+  rw [← frSilk_mode s fi e x hx, hmode] at ht
+  have hb : readsB MODE_SILK_ONLY fi.maxDataBytes x.redundancy e = true := by
+    unfold frRedSig at hred
+    dsimp only at hred
+    rw [hmode] at hred
+    split at hred
+    · assumption
+    · cases hred
+  unfold tellsOk at ht
+  rw [if_neg (by decide), hb] at ht
+  simp only [Bool.and_eq_true, decide_eq_true_eq, if_true, Bool.not_true, Bool.false_or,
+    show ¬ (MODE_SILK_ONLY = MODE_HYBRID) by decide, if_false] at ht
+  omega
+
+/-- When the main CELT call runs, `ret` of the coding block is what it returned. -/
+theorem frCode_ok_ret (s : St) (fi : FrameIn) (red c2s : Bool) (rb : Int) (o : FrameOr) (c : Coded) (cs : List Call)
+    (h : frCode s fi red c2s rb o = (.ok c, cs)) (hrun : runMain s fi rb o = true) : c.ret = o.celtMain := by
+  have h1 := congrArg Prod.fst h
+  unfold frCode at h1
+  dsimp only at h1
+  rw [hrun] at h1
+  simp only [apply_ite Prod.fst, if_true] at h1
+  split at h1
+  · cases h1
+  · split at h1
+    · cases h1
+    · split at h1
+      · cases h1
+      · split at h1
+        · split at h1
+          · cases h1
+          · split at h1
+            · cases h1
+            · simp only [CodeRes.ok.injEq] at h1
+              rw [← h1]
+        · simp only [CodeRes.ok.injEq] at h1
+          rw [← h1]
+
+/-- **Hybrid frame with redundancy, VBR off: the payload is the whole budget `max_data_bytes − 1`.**  The main CELT
+    call runs (the gate of :2220 and the clamp of :2239 leave it room), in CBR it returns exactly its budget
+    `max_data_bytes − 1 − redundancy_bytes` (contract `coderOk`), and the redundant frame follows. -/
+theorem hybrid_cbr_payload (s : St) (fi : FrameIn) (e : FrameOr) (x : Mid)
+    (hx : frSilk fi (frPre s fi) e = .cont x) (hmode : x.st.mode = MODE_HYBRID) (hcbr : x.st.useVbr = 0)
+    (hred : (frRedSig fi x e).1 = true) (hok : frameOk s fi e = true)
+    (hdtx : (frameNative s fi e).dtx = false) (hret : 1 ≤ (frameNative s fi e).ret)
+    (hbust : e.tellE ≤ (fi.maxDataBytes - 1) * 8) :
+    (frameNative s fi e).payload = fi.maxDataBytes - 1 ∧ e.tellA + 17 + 20 ≤ 8 * (fi.maxDataBytes - 1) ∧
+    2 ≤ (frRedSig fi x e).2.1 ∧ (frRedSig fi x e).2.1 ≤ 257 ∧
+    e.tellD ≤ 8 * (fi.maxDataBytes - 1 - (frRedSig fi x e).2.1) := by
+  obtain ⟨ht, hc, hf⟩ := frameOk_cont s fi e x hx hok
+  rw [← frSilk_mode s fi e x hx, hmode] at ht
+  have hrb : readsB MODE_HYBRID fi.maxDataBytes x.redundancy e = true ∧ (frRedSig fi x e).2.2 = x.st ∧
+      2 ≤ (frRedSig fi x e).2.1 ∧ (frRedSig fi x e).2.1 ≤ 257 ∧
+      ((frRedSig fi x e).2.1 ≤ (fi.maxDataBytes - 1) - (e.tellB + 8 + 3 + 7) / 8 ∨ (frRedSig fi x e).2.1 = 2) := by
+    unfold frRedSig at hred ⊢
+    dsimp only at hred ⊢
+    rw [hmode] at hred ⊢
+    split at hred
+    · rename_i hb; rw [if_pos hb]; simp only [if_true]; exact ⟨hb, trivial, by omega, by omega, by omega⟩
+    · cases hred
+  obtain ⟨hb, hst, hrb2, hrb257, hrbmax⟩ := hrb
+  have hgate : e.tellA + 17 + 20 ≤ 8 * (fi.maxDataBytes - 1) := by
+    unfold readsB redGate at hb
+    simp only [Bool.and_eq_true, decide_eq_true_eq, if_true] at hb
+    exact hb.1.2
+  have htl : e.tellA ≤ e.tellB ∧ e.tellB ≤ e.tellA + 13 ∧ e.tellD ≤ e.tellB + 8 ∧ 1 ≤ e.tellA := by
+    unfold tellsOk at ht
+    rw [if_neg (by decide), hb] at ht
+    simp only [Bool.and_eq_true, decide_eq_true_eq, if_true, Bool.not_true, Bool.false_or,
+      show ¬ (MODE_HYBRID = MODE_SILK_ONLY) by decide, if_false] at ht
+    omega
+  refine ⟨?_, hgate, hrb2, hrb257, by omega⟩
+  unfold frameNative at hdtx hret ⊢
+  dsimp only at hdtx hret ⊢
+  rw [hx] at hdtx hret ⊢
+  dsimp only at hdtx hret ⊢
+  generalize hrs : frRedSig fi x e = rs at *
+  obtain ⟨red, rb, s'⟩ := rs
+  dsimp only at hred hst hrb2 hrb257 hrbmax hc hf hdtx hret ⊢
+  subst hred hst
+  have htd : e.tellD ≤ 8 * (fi.maxDataBytes - 1 - rb) := by omega
+  have hnb2 : 2 ≤ fi.maxDataBytes - 1 - rb := by omega
+  have hcm : e.celtMain = fi.maxDataBytes - 1 - rb := by
+    unfold coderOk runMain nbCompr0 at hc
+    simp only [hmode, Bool.and_eq_true, decide_eq_true_eq, show ¬ (MODE_HYBRID = MODE_SILK_ONLY) by decide, if_false] at hc
+    exact hc.2 ⟨by decide, htd⟩ hcbr hnb2
+  have hrun : runMain x.st fi rb e = true := by
+    unfold runMain nbCompr0
+    rw [hmode, if_neg (by decide)]
+    simp only [decide_eq_true_eq]
+    exact ⟨by decide, htd⟩
+  rcases hfc : frCode x.st fi true x.celtToSilk rb e with ⟨cr, cs⟩
+  rw [hfc] at hdtx hret
+  cases cr with
+  | abort => simp only [abortRes] at hret; omega
+  | ierr => simp only [errRes, OPUS_INTERNAL_ERROR] at hret; omega
+  | ok c =>
+    have hcr := frCode_ok_ret x.st fi true x.celtToSilk rb e c cs hfc hrun
+    dsimp only at hdtx hret ⊢
+    have hfr : finishRet x.st fi true rb c.ret e = c.ret + 1 + rb := by
+      unfold finishRet
+      rw [if_neg (by omega), if_neg (by rw [hmode]; decide)]
+    unfold frFinish at hdtx hret ⊢
+    dsimp only at hdtx hret ⊢
+    rw [hfr] at hdtx hret ⊢
+    by_cases hd : (dtxDecision x.st fi e).1 ≠ 0
+    · rw [if_pos hd] at hdtx; cases hdtx
+    · rw [if_neg hd] at hret ⊢
+      rw [if_neg (by omega)] at hret ⊢
+      rw [if_pos hcbr] at hret ⊢
+      split at hret
+      · simp only [errRes, OPUS_INTERNAL_ERROR] at hret; omega
+      · rename_i hpad
+        rw [if_neg hpad]
+        dsimp only
+        rw [hcr, hcm]; omega
 
 end Opus.EncSkel.Proofs
